@@ -21,6 +21,10 @@ def main(argv):
     tier = argv[1]
     if tier not in ("quick", "thorough"):
         tier = os.environ.get("VERIF_TIER", "quick")
+    # (re)build the library and the driver from the repository's working tree BEFORE the check starts its deadline:
+    # after a source change the rebuild must not eat into the exploration budget
+    from . import drv
+    drv.exe("rel")
     return mod.run(tier)
 
 
